@@ -136,6 +136,9 @@ func newWorld() *world {
 
 var callPrefix = []byte{byte(vm.PUSH1), 0, byte(vm.CALLDATALOAD), byte(vm.JUMP)} // 4 bytes; ends on an instruction boundary
 
+// the same through a taken conditional jump: PUSH1 1; PUSH1 0; CALLDATALOAD; JUMPI (6 bytes)
+var jumpiPrefix = []byte{byte(vm.PUSH1), 1, byte(vm.PUSH1), 0, byte(vm.CALLDATALOAD), byte(vm.JUMPI)}
+
 // evmOutcome classifies one execution: "valid" (the jump was taken), "invalid" (ErrInvalidJump), or other.
 func outcome(err error) string {
 	switch {
@@ -150,6 +153,11 @@ func outcome(err error) string {
 // blackCall: positions 0..len+1 (relative to code) to which "prefix ++ code" jumps successfully
 // when the target is passed as call data; one EVM per call, all sharing cache.
 func (w *world) blackCall(code []byte, cache vm.JumpDestCache, addr common.Address, positions []int, sum *tl.Summary) ([]int, string) {
+	return w.blackCallWith(callPrefix, code, cache, addr, positions, sum)
+}
+
+func (w *world) blackCallWith(prefix, code []byte, cache vm.JumpDestCache, addr common.Address, positions []int, sum *tl.Summary) ([]int, string) {
+	callPrefix := prefix
 	full := append(append([]byte{}, callPrefix...), code...)
 	w.st.SetCode(addr, full, tracing.CodeChangeUnspecified)
 	out := []int{}
@@ -291,6 +299,12 @@ func runCases(in string, blackEvery int, sum *tl.Summary) {
 				sum.Notes = append(sum.Notes, fmt.Sprintf("evm.Call %x: unexpected outcome %s", code, other))
 			} else if !eq(got, c.Valid) {
 				bad("EVM JUMP via evm.Call, fresh cache", got, c.Valid)
+			}
+			got, other = w.blackCallWith(jumpiPrefix, code, shared, addr, pos, sum)
+			if other != "" {
+				sum.Notes = append(sum.Notes, fmt.Sprintf("evm.Call (JUMPI) %x: unexpected outcome %s", code, other))
+			} else if !eq(got, c.Valid) {
+				bad("EVM taken JUMPI via evm.Call", got, c.Valid)
 			}
 			got, other = w.blackCreate(code, pos, sum)
 			if other != "" {
